@@ -145,6 +145,22 @@ const maxNameWire = 255
 // genScope draws a scope identifier of 0..8 labels, as far as the 255 octets of the whole name allow.
 // One draw in 25 fills the name up to exactly 255 octets.
 func genScope(t *rapid.T) string {
+	// one draw in 12: very many short labels (the limits are 63 octets per label and 255 for the whole name; the
+	// number of labels has no limit of its own: 110 one-character labels fit)
+	if rarely(t, "scopeManyLabels", 12) {
+		k := rapid.IntRange(20, 110).Draw(t, "scopeManyLabelCount")
+		var parts []string
+		total := 34
+		for i := 0; i < k && total+2 <= maxNameWire; i++ {
+			n := 1
+			if total+3 <= maxNameWire && rapid.IntRange(0, 4).Draw(t, "twoChars") == 0 {
+				n = 2
+			}
+			total += 1 + n
+			parts = append(parts, scopeLabelOf(t, n))
+		}
+		return strings.Join(parts, ".")
+	}
 	k := rapid.IntRange(0, 8).Draw(t, "scopeLabels")
 	fill := k > 0 && rarely(t, "scopeFill", 8)
 	var parts []string
@@ -180,6 +196,9 @@ func classifyScope(s *vf.Sub, scope string) {
 	ls := scopeLabels(scope)
 	if len(ls) >= 4 {
 		s.Class("scope-of-4-or-more-labels")
+	}
+	if len(ls) >= 64 {
+		s.Class("scope-of-64-or-more-labels")
 	}
 	if scopeWireLen(scope) == maxNameWire {
 		s.Class("name-of-255-octets")
